@@ -153,7 +153,7 @@ Definition ms_f (start_pos : nat) (active : text)
          map (fun eh : nat * list dentry =>
                 if fst eh =? end_pos
                 then (fst eh, snd eh ++ firstn (mhg - length homographs) (drain_all it)) else eh) same_start0,
-         if start_pos =? 0 then coll ++ [(consumed, it)] else coll)
+         if start_pos =? 0 then coll_put consumed it coll else coll)
     end.
 
 Lemma ms_at_eq (st : ms_state) start_pos :
